@@ -455,7 +455,18 @@ func (engine) Generate(seed uint64, index int, tier string) json.RawMessage {
 	if len(m.Pkgs) > 1 && len(m.Pkgs[1].Imports) == 0 {
 		m.Pkgs[1].Imports = []int{0}
 	}
-	c := Case{Mod: *m, Flags: Flags{Tests: tests, Checks: checkSets[r.N(2)]}}
+	// the first run populates the cache: vary the conditions under which that
+	// happens, not only the later steps
+	c := Case{Mod: *m, Flags: Flags{Tests: tests, Checks: checkSets[r.N(len(checkSets))]}}
+	if r.P(300) {
+		c.Flags.Go = goVersions[r.N(len(goVersions))]
+	}
+	if r.P(200) {
+		c.Flags.Tags = "extra"
+	}
+	if r.P(250) {
+		c.Flags.Patterns = []int{npkg - 1 - r.N((npkg+1)/2)}
+	}
 	n := 2 + r.N(12)
 	if tier == "thorough" {
 		n = 2 + r.N(24)
